@@ -73,6 +73,8 @@ class Engine:
         self.deadline = None
         self.pcs = []
         self.notes = {}
+        self.doms = {}
+        self.decided = {}
 
     # ---- solver helpers
     def _check(self, *assump):
@@ -109,18 +111,45 @@ class Engine:
                 self.model = None
 
     def _assert_decided(self, c):
-        self.solver.add(c)
+        # same as self.solver.add(c), without z3py's per-call coercion overhead
+        z3.Z3_solver_assert(self.solver.ctx.ref(), self.solver.solver, c.as_ast())
         self.pcs.append(c)
 
     # ---- decisions
-    def branch(self, cond):
-        """decide a z3 Bool on the current path; forks when both sides are feasible."""
+    def branch(self, cond, dom=None):
+        """decide a z3 Bool on the current path; forks when both sides are feasible.
+        dom = (var_id, n_alternatives, frozenset(indices)) when cond is `var in indices`
+        for a finite-domain variable: the engine then tracks the feasible set of
+        that variable and answers implied conditions without a query."""
         if isinstance(cond, bool):
             return cond
         if z3.is_true(cond):
             return True
         if z3.is_false(cond):
             return False
+        cid = cond.get_id()
+        hit = self.decided.get(cid)
+        if hit is not None:
+            return hit
+        if dom is not None:
+            vid, n, S = dom
+            cur = self.doms.get(vid)
+            if cur is not None:
+                if cur <= S:
+                    return True
+                if not (cur & S):
+                    return False
+        d = self._branch(cond)
+        self.decided[cid] = d
+        if dom is not None:
+            vid, n, S = dom
+            cur = self.doms.get(vid)
+            if cur is None:
+                cur = frozenset(range(n))
+            self.doms[vid] = (cur & S) if d else (cur - S)
+        return d
+
+    def _branch(self, cond):
         if self.pos < len(self.trail):
             d = self.trail[self.pos]
             if not isinstance(d, bool):
@@ -236,6 +265,8 @@ class Engine:
             self.pos = 0
             self.pcs = []
             self.model = None
+            self.doms = {}
+            self.decided = {}
             self.deadline = t_end
             self.solver.push()
             try:
@@ -274,13 +305,14 @@ def zbool(x):
 
 
 class SymBool:
-    __slots__ = ("e",)
+    __slots__ = ("e", "dom")
 
-    def __init__(self, e):
+    def __init__(self, e, dom=None):
         self.e = e
+        self.dom = dom
 
     def __bool__(self):
-        return ENG.branch(self.e)
+        return ENG.branch(self.e, self.dom)
 
     def __and__(self, o):
         return SymBool(z3.And(self.e, zbool(o)))
@@ -293,6 +325,9 @@ class SymBool:
     __ror__ = __or__
 
     def __invert__(self):
+        if self.dom is not None:
+            vid, n, S = self.dom
+            return SymBool(z3.Not(self.e), (vid, n, frozenset(range(n)) - S))
         return SymBool(z3.Not(self.e))
 
     def __eq__(self, o):
